@@ -12,6 +12,7 @@ type PrintOpts struct {
 	NoInit   bool   // no initializer at all
 	Plain    bool   // blocks are printed as opaque `{ /*id*/ ... }` returning constants (no mon)
 	RuleOp   string // default "<-"
+	OneLine  bool   // all rules on one line, separated by ';'
 }
 
 // level = binding strength: recover 0 < choice 1 < action 2 < sequence 3 < label 4 < prefix 5 <
@@ -60,7 +61,11 @@ func Print(g *Grammar, o PrintOpts) string {
 		sb.WriteString(" " + o.RuleOp + " ")
 		p := &printer{g: g, o: o, sb: &sb}
 		p.expr(r.Expr, 0)
-		sb.WriteString("\n\n")
+		if o.OneLine {
+			sb.WriteString(" ; ")
+		} else {
+			sb.WriteString("\n\n")
+		}
 	}
 	return sb.String()
 }
